@@ -1,5 +1,6 @@
 """Fail-closed Python-`ast` translator: bct/algorithms/reference.py -> coq/theories/Gen/RewireTable.v.
 
+For randomizer_bin_und it extracts the swap writes, the hole tests and the mate test (extract_rbu).
 For each of the nine edge-swap routines it extracts the "swap table" (vocabulary of Model/RewireSpec.v):
 edge-list source, the selection loop (two draws bounded by the edge count, the `while e1 == e2` redraw, the four endpoint
 reads `a = i[e1]` ..., the four-distinct test — and nothing else in that loop), flip block, rewiring condition, ordered cell
@@ -271,6 +272,36 @@ def coq_spec(s):
         reads, b(s['redraw']), b(s['halved']), b(s['loops'])))
 
 
+def extract_rbu(fn):
+    """randomizer_bin_und: the constant cell writes of its swap (in order, and no other write to a cell named by a, b, c, d),
+    the two hole tests `np.where(R[:, a] == 0)` / `np.where(R[:, b] == 0)` combined by np.intersect1d, the mate test
+    `np.where(R[np.ix_(i_intersect, i_intersect)] == 1)`"""
+    writes = []
+    for st in ast.walk(fn):
+        if isinstance(st, ast.Assign) and len(st.targets) == 1 and isinstance(st.targets[0], ast.Subscript) and name(st.targets[0].value) == 'R':
+            idx = st.targets[0].slice
+            if isinstance(idx, ast.Tuple) and len(idx.elts) == 2 and all(name(e) in SYM for e in idx.elts):
+                if not (isinstance(st.value, ast.Constant) and st.value.value in (0, 1)):
+                    raise Unknown('rbu write ' + ast.unparse(st))
+                writes.append((st.lineno, (SYM[name(idx.elts[0])], SYM[name(idx.elts[1])]), int(st.value.value)))
+    writes.sort()
+    if not writes or [w[0] for w in writes] != list(range(writes[0][0], writes[0][0] + len(writes))):
+        raise Unknown('rbu swap writes are not one block of consecutive statements')
+    norm = lambda t: t.replace('(', '').replace(')', '').replace(' ', '')   # ast.unparse differs between Python versions
+    src = norm(ast.unparse(fn))
+    tests = []
+    for var, col in (('alliholes', 'a'), ('alljholes', 'b')):
+        for val in (0, 1):
+            if norm('%s, = np.where(R[:, %s] == %d)' % (var, col, val)) + '\n' in src + '\n':
+                tests.append((SYM[col], val))
+    if len(tests) != 2 or norm('i_intersect = np.intersect1d(alliholes, alljholes)') not in src:
+        raise Unknown('rbu hole tests')
+    mate = [v for v in (0, 1) if norm('ii, jj = np.where(R[np.ix_(i_intersect, i_intersect)] == %d)' % v) + '\n' in src + '\n']
+    if len(mate) != 1:
+        raise Unknown('rbu mate test')
+    return [(c, v) for _, c, v in writes], tests, mate[0]
+
+
 UNRECOGNISED = 'mkspec ELall [] [] [] [] [] false false [] false [] false false false'
 
 
@@ -296,6 +327,20 @@ def generate(repo, out_path):
     txt.append('(* the swap table read off the current source is the one the engine of Model/Rewire.v implements')
     txt.append('   (Proofs/RewireSpec.v: attempt_tab_engine, attempt_tab_partial: the table-driven attempt IS the engine attempt) *)')
     txt.append('Example src_table_ok : list_eqb spec_eqb source_table expected_table = true.')
+    txt.append('Proof. vm_compute. reflexivity. Qed.')
+    txt.append('')
+    try:
+        w, tst, mate = extract_rbu(fns['randomizer_bin_und'])
+    except (Unknown, KeyError) as e:
+        w, tst, mate = [], [], 0
+        notes.append('randomizer_bin_und: %s' % e)
+        txt.append('(* NOT RECOGNISED: randomizer_bin_und: %s *)' % str(e).replace('*)', '* )'))
+    txt.append('(* randomizer_bin_und: swap writes, hole tests, mate value (Proofs/RewireSpec.v: rbu_swap_is_table, rbu_holes_is_table, rbu_mates_is_table) *)')
+    txt.append('Definition source_rbu_writes : list cwrite := %s.' % coq_list(['(%s, %d)' % (coq_cell(c), v) for c, v in w]))
+    txt.append('Definition source_rbu_tests : list (sym * Z) := %s.' % coq_list(['(%s, %d)' % (c, v) for c, v in tst]))
+    txt.append('Definition source_rbu_mate : Z := %d.' % mate)
+    txt.append('Example src_rbu_ok : (list_eqb cwrite_eqb source_rbu_writes rbu_writes_std && list_eqb stest_eqb source_rbu_tests rbu_tests_std &&')
+    txt.append('                      Z.eqb source_rbu_mate rbu_mate_std)%bool = true.')
     txt.append('Proof. vm_compute. reflexivity. Qed.')
     new = '\n'.join(txt) + '\n'
     os.makedirs(os.path.dirname(out_path), exist_ok=True)
